@@ -114,6 +114,12 @@ def validate_prelude(quick=True):
             up = S.f_update(e, len(t) - 1, 9)
             facts.append(S.f_at(up, len(t) - 1) == 9)
             facts.append(S.f_at(up, 0) == (9 if len(t) == 1 else t[0]))
+            for i in range(len(t)):
+                upi = S.f_update(e, i, 9)
+                tt = list(t)
+                tt[i] = 9
+                for k in range(len(t) + 1):
+                    facts.append(S.f_prefix(upi, k) == sum(tt[:k]))
         rp = S.f_rep(z3.IntVal(3), z3.IntVal(len(t)))
         facts.append(S.f_len(rp) == len(t))
         facts.append(S.f_prefix(rp, len(t)) == 3 * len(t))
